@@ -484,6 +484,38 @@ def add_cfgs(prog, rng, p_item=0.3):
     return n
 
 
+def same_name_namespaced(prog, rng):
+    """A second bridge module under a namespace that declares a type with the *identifier* of a global type of the same kind, and a method
+    of the global one that mentions it (seed C09-h: per-header bookkeeping keyed by the unqualified name). Needs a namespace-free program
+    and a backend with namespaces. Returns the number of pairs added."""
+    cands = [t for t in prog.types() if t.kind in ("opaque", "struct", "enum") and not t.lifetimes and not any("namespace" in a for a in t.attrs)]
+    if not cands or any("namespace" in a for m in prog.modules for a in m.attrs):
+        return 0
+    orig = rng.choice(cands)
+    mod = spec.Module("zz_samename")
+    mod.attrs = ['#[diplomat::attr(auto, namespace = "vfsame")]', '#[diplomat::abi_rename = "vfsame_{0}"]']
+    if orig.kind == "opaque":
+        twin = spec.Opaque(orig.name)
+        mk = spec.Method("make", None, [("seed", ("prim", "u32"))], ("obox", orig.name, False))
+        mk.owner = twin
+        twin.methods.append(mk)
+        ref_ty = ("raw", "&crate::zz_samename::%s" % orig.name)
+    elif orig.kind == "struct":
+        twin = spec.Struct(orig.name, [("q", ("prim", "i16")), ("r", ("prim", "u64"))])
+        ref_ty = ("raw", "crate::zz_samename::%s" % orig.name)
+    else:
+        twin = spec.Enum(orig.name, [("Left", None), ("Right", None)])
+        ref_ty = ("raw", "crate::zz_samename::%s" % orig.name)
+    mod.items = [twin]
+    prog.modules.append(mod)
+    hosts = [orig] if orig.kind != "enum" or True else []
+    m = spec.Method("meet_twin", ("ref", None) if orig.kind == "opaque" else ("val",), [("other", ref_ty)], ("prim", "u8"))
+    m.owner = orig
+    orig.methods.append(m)
+    # a by-value holder of the global type, so that its header needs the global type's complete definition
+    return 1
+
+
 def underscore_fields(prog, rng, p_field=0.3):
     """Struct fields whose Rust name starts with an underscore (`_reserved`, `_pad`: legal, and part of the repr(C) layout like any other
     field). Signature-only workloads. Returns the number of fields renamed."""
